@@ -5,8 +5,45 @@ claim("C31",
  "Trusted: gosx SSA semantics (validated per run by replaying one solver witness per path natively), z3/cvc5 soundness, cvc5 bit-vector-to-integer translation for mul/div kernels.",
  "DESIGN.md §4 C31")
 
+
+claim("C29",
+ "Symbolic check of the real visor.NewPageIndex / PageIndex.Cal: page size, page number and list length are free 64-bit vectors; start/end/total are compared with 128-bit reference arithmetic (page p covers [size(p-1), min(size*p, n)), pages beyond ceil(n/size) are empty, consecutive pages abut). Loop-free code, so the solver verdict covers the whole 64-bit domain.",
+ "Trusted: gosx SSA semantics (every path witness replayed natively), solver soundness incl. BV->Int translation for the multiplication. Outside: the de-duplication and ordering of the result list before paging (visor.GetTransactions) and the HTTP layer.",
+ "DESIGN.md §4 C29")
+
+claim("C01",
+ "Bounded symbolic check of the coin-conservation kernels: coin.VerifyTransactionCoinsSpending on 0..3 x 0..3 (thorough 0..4 x 0..4) outputs with every Coins field a free 64-bit vector is compared with 128-bit sums (accepted <=> both true sums fit in 64 bits and are equal), and the checked sums UxArray.Coins / Transaction.OutputHours are exact or error.",
+ "Reduced in this revision: the block-level step (Unspents.ProcessBlock over a key/value model, verifyTxnHardConstraints data flow, genesis) is not yet encoded; those parts of the statement are outside the claim. Trusted: gosx semantics (witnesses replayed natively), solver soundness.",
+ "DESIGN.md §4 C01 (H1 built; H2-H5 pending)")
+
+claim("C03",
+ "Bounded symbolic check that accepted transactions create no coin hours: coin.VerifyTransactionHoursSpending on 0..3 inputs x 0..3 outputs (all times, coins, hours free 64-bit) accepts iff no input's accrual hit an intermediate overflow, the 128-bit sum of input hours fits and the (wrapping, legacy) output-hour sum does not exceed it, with overflowing final additions counted as zero; UxOut.CoinHours itself is proved equal to hours + floor(coins*seconds/3.6e9) with the exact error conditions for all 64-bit values (shared with C31), and a 1-input end-to-end harness runs the real CoinHours inside the spending check.",
+ "In the multi-input harness CoinHours is summarised by its contract (deterministic function returning value | distinguished overflow error | other error); monotonicity in time is decided directly only in the thorough tier on a reduced domain (coins < 2^32, elapsed < 2^31 s) and otherwise follows from the proved closed form. Outside: which head time the visor passes (C04) and VerifySingleTxnHardConstraints' extra overflow checks for unconfirmed transactions.",
+ "DESIGN.md §4 C03")
+
+claim("C11",
+ "Bounded symbolic check of the soft rules: fee kernel (RequiredFee = ceil(h/b), no underflow, VerifyTransactionFeeForHours accepted iff fee != 0, hours+fee fits and fee*b >= hours+fee) over all 64/32-bit values; DropletPrecisionCheck iff amount mod 10^(6-p) = 0 for every legal p; VerifyTxn.Validate ranges; and transaction.VerifySingleTxnSoftConstraints accepted <=> size <= max and fee rule and no locked input address and all outputs precise, with every failure typed ErrTxnViolatesSoftConstraint and hard-rule entry points returning only ErrTxnViolatesHardConstraint, on transactions with 1..2 inputs x 1..2 outputs.",
+ "Address.String abstracted as an injective function (base58 exactness is C15); UxOut.CoinHours summarised by its contract in the soft-rule harness (proved against the formula in C31); quick tier checks the size/fee, locked-address and precision rules in three separately parameterised runs, the thorough tier all together. Distribution list bounded to 2 addresses (real list: 100).",
+ "DESIGN.md §4 C11")
+
+claim("C23",
+ "Bounded symbolic check of every message constructor with truncation (NewAnnounceTxnsMessage, NewGetTxnsMessage, NewGiveTxnsMessage, NewGiveBlocksMessage, NewGivePeersMessage): for 0..4 requested items of varying encoded size and a free 64-bit maxMsgLength >= 12, the wire length (4-byte length prefix + 4-byte message id + EncodeSize, the quantity gnet.sendMessage compares) is <= maxMsgLength, the result is a prefix of the (parsable) request, one more item would not fit, and the 128/256/512 item caps hold.",
+ "The wire length is modelled as 8 + EncodeSize() (gnet.EncodeMessage's reflect-based id lookup is not executed); NewIPAddr's text parsing is abstracted by an uninterpreted function in the peers harness. Item counts above 4 are outside the bound except for the cap harness.",
+ "DESIGN.md §4 C23")
+
+
+claim("C22",
+ "Bounded symbolic check of the receive framing: the real gnet.decodeData over a real bytes.Buffer is driven exactly as readLoop drives it (Write(chunk); decodeData) on a stream of 0..13 (thorough 0..17) free bytes split into up to three reads at every pair of cut points, with a free maxMsgLength; a one-shot reference parse of the whole stream is the oracle: without an invalid length prefix every complete frame is delivered exactly once, in order, with exact content and the incomplete tail stays buffered, for every chunking; an invalid prefix (< 4 or > max) yields ErrDisconnectInvalidMessageLength once its 5th byte is buffered, and nothing but earlier frames is delivered; no path panics.",
+ "Reduced in this revision: message-id lookup and body decoding (convertToMessage / deserializeMessage: unknown id, undecodable body, trailing bytes) are not yet encoded. Streams longer than the bound (frames longer than 13/17 bytes, more than 3 reads) are outside the claim. TCP, bufio, queues and goroutines are C32 territory.",
+ "DESIGN.md §4 C22 (H1 built; H2 pending)")
+
+claim("C18",
+ "Bounded symbolic no-panic and round-trip checks of wallet encryption: ScryptChacha20poly1305.Decrypt is executed for every decoded payload length 0..18 with free bytes (all metadata length prefixes), every nonce length 0..13, scrypt parameters N in -1..9, r,p in -1..2, keyLen in {-1,0,1,31,32,33}, running the real length arithmetic, scrypt.Key parameter checks, chacha20poly1305.New/Open argument checks: no panic path exists; Sha256Xor.Decrypt never panics for decoded ciphertexts of every length 0..99 with free content, and Sha256Xor Decrypt(Encrypt(d)) = d for 0/1/28/33-byte plaintexts with free content, password and nonce.",
+ "base64 decoding, encoding/json, PBKDF2/HMAC, smix and the ChaCha20-Poly1305 core are replaced by arbitrary-result models under their documented contracts; SHA256 / Secp256k1Hash are uninterpreted functions. Outside: wallet Lock/Unlock bookkeeping (which fields are removed and restored), rejection of wrong passwords (a cryptographic, probabilistic statement), memory exhaustion through huge scrypt work factors in attacker-supplied metadata.",
+ "DESIGN.md §4 C18 (H1-H3 built; H4 pending)")
+
 _pending = "check not built yet in this revision (work in progress; see DESIGN.md §4)"
-for p in ["C01","C02","C03","C04","C05","C06","C07","C09","C10","C11","C12","C13","C14","C15","C16","C17","C18","C19","C20","C21","C22","C23","C24","C25","C26","C27","C28","C29","C30","C33"]:
+for p in ["C02","C04","C05","C06","C07","C09","C10","C12","C13","C14","C15","C16","C17","C19","C20","C21","C24","C25","C26","C27","C28","C30","C33"]:
     na(p, _pending)
 na("C08", "crash points inside boltdb's mmap/page commit and fsync ordering plus the goroutine/channel WalkChain pipeline cannot be encoded by an SSA->SMT executor (no I/O ordering or scheduling semantics)")
 na("C32", "race freedom and shutdown under all goroutine schedules: the encoder has no thread/channel semantics; the race detector is a dynamic technique outside this family")
